@@ -11,12 +11,17 @@
 (* (`Codec::compress`, `Codec::decompress`, `util::max_allocation_bytes`). *)
 (*                                                                         *)
 (* Part 1  CRC-32 (IEEE 802.3, reflected, table driven) on 16-bit limbs.   *)
-(* Part 2  raw snappy: complete decoder; three spec-side encoders.         *)
+(* Part 2  raw snappy: complete decoder (a small machine, one element per  *)
+(*         step); a parameterised spec-side encoder (literal chunking,     *)
+(*         every width of the literal length field, the three copy forms). *)
 (* Part 3  raw deflate: stored-block and fixed-Huffman encoders; complete  *)
 (*         inflate (stored, fixed and dynamic Huffman blocks).             *)
-(* Part 4  the codec contract as a state machine over one record `cs`:     *)
-(*         Compress / Corrupt / Decompress, header metadata <-> codec,     *)
-(*         and the invariants the property states.                         *)
+(* Part 4  the codec contract as a state machine over one record:          *)
+(*         CompressStep / RefReadStep / damage steps / DecompressStep,     *)
+(*         header metadata <-> (codec, level), and the clauses of the      *)
+(*         property as predicates on the state.  MC_Codec drives it with   *)
+(*         the spec's own encoders/decoders, Trace_Codec with what the     *)
+(*         library really produced.                                        *)
 (*                                                                         *)
 (* bzip2, xz and zstandard bit-streams are NOT transcribed (DESIGN §5):    *)
 (* for them the machine carries the reading of a reference decompressor    *)
@@ -38,7 +43,7 @@ CrcPoly == <<33568, 60856>>                    \* 0x8320, 0xEDB8
 
 (* Exclusive or of 16-bit limbs.  Bitwise's a ^^ b is the definition; it is a RECURSIVE operator that
    TLC interprets level by level (measured: ~50 us per call, CRC-32 at 4.7 kB/s).  Xor16 looks the four
-   nibbles up in a literal 16 x 16 table instead (about 5x faster) and is checked against ^^ below. *)
+   nibbles up in a literal 16 x 16 table instead (measured 6.7 kB/s) and is checked against ^^ below. *)
 XorNibble ==
 <<
   <<0, 1, 2, 3, 4, 5, 6, 7, 8, 9, 10, 11, 12, 13, 14, 15>>,
